@@ -23,6 +23,7 @@ from .. import tlc, tlaval
 from ..common import CPUS, VERIF, MachineryError, canon, chunks, import_repo
 
 META = ("id", "sampled", "features", "perms")
+BATCH = 40000
 EV_SCALE = 2.0 ** 40
 GENE = "g"
 
@@ -299,6 +300,16 @@ def _ov_size(a, b):
     return max(0, min(a["e"], b["e"]) - max(a["s"], b["s"]))
 
 
+def _components(members):
+    comps = []
+    for hit in members:
+        touching = [c for c in comps if any(_ov_size(hit, other) > 20 for other in c)]
+        for comp in touching:
+            comps.remove(comp)
+        comps.append([hit] + [x for comp in touching for x in comp])
+    return comps
+
+
 def _compete_features(case):
     hits, groups = case["hits"], [set(g) for g in case["groups"]]
     feats = set()
@@ -312,13 +323,10 @@ def _compete_features(case):
             others = [h for h in mine if h["p"] not in group]
             if any(_ov_size(a, b) > 20 for a in members + others for b in others if a is not b):
                 feats.add("outsider_overlaps_on_competing_gene")
-            linked = [(a, b) for a, b in itertools.combinations(members, 2) if _ov_size(a, b) > 20]
-            if any(a["sc"] == b["sc"] for a, b in linked):
-                feats.add("tied_scores_in_overlap_group")
-            for hit in members:
-                partners = [b if a is hit else a for a, b in linked if a is hit or b is hit]
-                if any(_ov_size(x, y) <= 20 for x, y in itertools.combinations(partners, 2)):
-                    feats.add("overlap_chain_in_group")
+            for comp in _components(members):
+                top = max(h["sc"] for h in comp)
+                if len([h for h in comp if h["sc"] == top]) > 1:
+                    feats.add("tied_best_scores_in_overlap_group")
     by_key = {}
     for hit in hits:
         by_key.setdefault((hit["g"], hit["p"]), []).append(hit)
@@ -548,19 +556,25 @@ def run(ctx):
                 ("compete", {"uni": "c6", "scores": "1, 2", "maxhits": 3, "genes": '"g1", "g2"'}, "compete_c6x3_2genes")]
         seeds, randoms = [0, 1, 2, 3, 4, 5], 30000
 
+    # development knob (used when regenerating the case lists of the findings): C13_FAMILIES=refine runs one call site
+    only = [x for x in os.environ.get("C13_FAMILIES", "").split(",") if x]
+    if only:
+        plan = [item for item in plan if item[0] in only]
+        ctx.notes["restricted_to_families"] = only
     cases, seen = [], set()
     sizes = {}
     timing = ctx.notes.setdefault("timing_s", {})
     mark = ctx.timer.elapsed()
     # all TLC runs side by side: generators with their invariants, and the negative controls (the current
     # implementation shape must violate these on the model)
-    nc_params = plan[0][1]
+    nc_params = next((item[1] for item in plan if item[0] == "refine"), None)
+    controls = NEGATIVE_CONTROLS if nc_params else []
     tlc.stage(ctx.workdir)
     with ThreadPoolExecutor(max_workers=4) as pool:
         futures = [pool.submit(_model_run, ctx, family, params, label, FAMILIES[family], True)
                    for family, params, label in plan]
         nc_futures = [pool.submit(_model_run, ctx, "refine", nc_params, invariant, [invariant], False)
-                      for invariant, _ in NEGATIVE_CONTROLS]
+                      for invariant, _ in controls]
         runs = [f.result() for f in futures]
         nc_runs = [f.result() for f in nc_futures]
     for (family, params, label), mc_run in zip(plan, runs):
@@ -574,33 +588,48 @@ def run(ctx):
             cases.append(case)
             fresh += 1
         sizes[label] = fresh
-    for (invariant, label), nc_run in zip(NEGATIVE_CONTROLS, nc_runs):
+    for (invariant, label), nc_run in zip(controls, nc_runs):
         ctx.expect_violation(nc_run, invariant, label)
     timing["model_runs_and_negative_controls"] = round(ctx.timer.elapsed() - mark, 1)
     mark = ctx.timer.elapsed()
     for _ in range(randoms):
         pick = rng.random()
-        cases.append(_random_refine(rng) if pick < 0.5 else _random_nooverlap(rng) if pick < 0.7 else _random_compete(rng))
-    for idx, case in enumerate(cases):
-        case["id"] = idx
-        case["features"] = _features(case)
-        case["perms"] = _perms(case, rng)
-
-    events = _observe(ctx, cases, seeds, rng)
-    timing["real_code_in_child_interpreters"] = round(ctx.timer.elapsed() - mark, 1)
-    mark = ctx.timer.elapsed()
-
-    by_id = {}
-    for case, event in zip(cases, events):
-        by_id[case["id"]] = {"op": case["op"], "input": case_input(case),
-                             "call": call_text(case), "features": case["features"],
-                             "sampled": case.get("sampled", False), "observed": _observed(event)}
-        if _nontrivial(case):
-            ctx.nontrivial_case(case["id"])
-    ctx.evaluations = sum(len(ev.get("d", [])) + len(ev.get("n", [])) + len(ev.get("outs", []))
-                          + len(ev.get("fr", [])) + len(ev.get("fm", [])) for ev in events)
-    ctx.validate("Refine_Trace", events, by_id, min_per_shard=150)
-    timing["trace_validation"] = round(ctx.timer.elapsed() - mark, 1)
+        case = _random_refine(rng) if pick < 0.5 else _random_nooverlap(rng) if pick < 0.7 else _random_compete(rng)
+        if not only or case["op"] in only:
+            cases.append(case)
+    timing["real_code_in_child_interpreters"] = 0.0
+    timing["trace_validation"] = 0.0
+    samples = {0: None, len(cases) // 2: None, len(cases) - 1: None}
+    # in batches, so that the results of a thorough run never sit in memory all at once
+    for offset in range(0, len(cases), BATCH):
+        batch = cases[offset:offset + BATCH]
+        for idx, case in enumerate(batch):
+            case["id"] = offset + idx
+            case["features"] = _features(case)
+            case["perms"] = _perms(case, rng)
+        mark = ctx.timer.elapsed()
+        events = _observe(ctx, batch, seeds, rng)
+        timing["real_code_in_child_interpreters"] = round(timing["real_code_in_child_interpreters"]
+                                                          + ctx.timer.elapsed() - mark, 1)
+        by_id = {}
+        for case, event in zip(batch, events):
+            by_id[case["id"]] = {"op": case["op"], "input": case_input(case),
+                                 "call": call_text(case), "features": case["features"],
+                                 "sampled": case.get("sampled", False), "observed": _observed(event)}
+            if case.get("sampled"):
+                by_id[case["id"]]["perms"] = case["perms"]      # lets a replay run the very same orders
+            if _nontrivial(case):
+                ctx.nontrivial_case(case["id"])
+            if case["id"] in samples:
+                samples[case["id"]] = {"case": case_input(case), "call": call_text(case),
+                                       "observed": by_id[case["id"]]["observed"]}
+            del case["perms"]
+        ctx.evaluations += sum(len(ev.get("d", [])) + len(ev.get("n", [])) + len(ev.get("outs", []))
+                               + len(ev.get("fr", [])) + len(ev.get("fm", [])) for ev in events)
+        mark = ctx.timer.elapsed()
+        ctx.validate("Refine_Trace", events, by_id, min_per_shard=150)
+        timing["trace_validation"] = round(timing["trace_validation"] + ctx.timer.elapsed() - mark, 1)
+        del events, by_id
 
     drift = [f for f in ctx.failures if f["op"] == "drift"]
     ctx.failures = [f for f in ctx.failures if f["op"] != "drift"]
@@ -608,9 +637,9 @@ def run(ctx):
         "events": len(drift), "examples": [canon(f["input"])[:300] for f in drift[:3]],
         "meaning": "results the implementation-shaped TLA+ model does not produce under any order/repair; never an alarm"}
 
-    for case in (cases[0], cases[len(cases) // 2], cases[-1]):
-        ctx.sample({"case": case_input(case),
-                    "call": call_text(case), "observed": by_id[case["id"]]["observed"]})
+    for sample in samples.values():
+        if sample:
+            ctx.sample(sample)
     ctx.exhaustive = True
     ctx.rule = ("TLC enumerates every set of at most MaxHits hits over the interval/score/profile universes of Refine_MC "
                 "(equal starts, equal scores, nesting, chains, fragments of one profile) for the three call sites; each "
@@ -635,7 +664,7 @@ def replay(ctx, record):
     case = dict(record["input"])
     case["id"] = 0
     case["features"] = _features(case)
-    case["perms"] = _perms(case, rng)
+    case["perms"] = record.get("perms") or _perms(case, rng)
     if record.get("sampled"):
         case["sampled"] = True
     seeds = [0, 1, 2, 3, 4, 5]
